@@ -18,7 +18,7 @@ CHECKS.update({
    note="Trusted: Coq kernel, translator, Python's % operator (modelled, not verified). String level is false for Guarded precision=0 display>0 (open finding K6, refuted Example in Props/C14.v).",
    technique="Coq proof over regenerated __str__ kernels + differential correspondence on printed strings", ref="DESIGN.md §6 C14"),
  'C20': dict(
-   text="The only process-global state a count reads is the class-level state of the arithmetic classes. In the model it is the argument of the arithmetic instance; the one component that can be stale (Guarded __scaledg) is proved irrelevant: the Guarded instance and the trace of every count are equal for all stale values (Coq, via functional extensionality). Tie: histories of earlier elections run in one process vs fresh-process results (report, dump, JSON byte-equal).",
+   text="Election construction is modelled on an explicit class state (one slot per class attribute any initialize() assigns): for all earlier states g, g' construction gives the same outcome, the same store and the same value of every attribute that can be read afterwards; the state after construction is exactly the argument of the model's arithmetic instance. The only process-global state a count reads is the class-level state of the arithmetic classes. In the model it is the argument of the arithmetic instance; the one component that can be stale (Guarded __scaledg) is proved irrelevant: the Guarded instance and the trace of every count are equal for all stale values (Coq, via functional extensionality). Tie: histories of earlier elections run in one process vs fresh-process results (report, dump, JSON byte-equal).",
    note="Trusted: Coq kernel, stdlib axiom functional_extensionality_dep, the hand model of initialize() (which fields are assigned on which branch), tied by the history driver; interpreter-level state outside the three classes is not modelled.",
    technique="Coq proof (instance equality transporting whole counts) + history differential testing", ref="DESIGN.md §6 C20"),
  'C15': dict(
@@ -84,7 +84,11 @@ CHECKS.update({
    note="_partial: interrupts inside C-level calls / between bytecodes are covered only at line granularity by the driver.",
    technique="Coq whole-run proof (prefix property) + fault injection at every line event", ref="DESIGN.md §6 C19"),
 })
-NOT_YET = {'C17': "options model and C17 theorems are being merged (builder agent); the whole-count immunity harness exists (props/c17_counts.py)"}
+CHECKS['C17'] = dict(
+   text="Coq model of the option store (normalize, update, getopt, setopt with allowed, unused, overrides, record, parse), of every rule's options() and of ArithmeticClass/initialize, with axiom-free theorems: getopt = first of force, cmd, file, default that has the key; record()['options'] (computed separately) agrees with getopt on every key; setopt/unused/overrides characterised; no rule writes the cmd or file layer; for every statutory rule the whole effective configuration (rule parameters, arithmetic class, every class-attribute assignment) is a constant independent of the supplied layers and construction never raises. Tie: random four-layer assignments x all rules through implementation and model; whole-count immunity by paired runs (statutory rule with and without perturbing options from both sources).",
+   note="Generator envelope: ASCII option strings <= 12 chars, |int| <= 40. Count-level immunity follows because the count is a function of the configuration (the model takes it as its only input); it is additionally tested on the implementation.",
+   technique="Coq proof over a hand model of options/initialize + differential correspondence + paired-run oracle", ref="DESIGN.md §6 C17")
+NOT_YET = {}
 def main():
     props = [json.loads(l) for l in open(os.path.join(V, 'properties.jsonl'))]
     checks = []
